@@ -20,27 +20,27 @@ pub fn property() -> Property {
     let ops = || Weights::ops_only();
     let mixed = || Weights::mixed();
     // Orswot: strict in both sub-domains
-    add::<SOrswot>(&mut jobs, "A: edits at causally closed replicas, ops", Disc::Fifo, ops(), true, &[], 6000, 200_000, 0.02);
-    add::<SOrswot>(&mut jobs, "B: edits anywhere, ops", Disc::Fifo, ops(), false, &[], 6000, 200_000, 0.02);
-    add::<SOrswot>(&mut jobs, "B: edits anywhere, ops+merges", Disc::Fifo, mixed(), false, &[], 6000, 200_000, 0.02);
+    add::<SOrswot>(&mut jobs, "A: edits at causally closed replicas, ops", Disc::Fifo, ops(), true, &[], 12000, 200_000, 0.02);
+    add::<SOrswot>(&mut jobs, "B: edits anywhere, ops", Disc::Fifo, ops(), false, &[], 12000, 200_000, 0.02);
+    add::<SOrswot>(&mut jobs, "B: edits anywhere, ops+merges", Disc::Fifo, mixed(), false, &[], 12000, 200_000, 0.02);
     // MVReg: no ordering assumption at all
-    add::<SMVReg>(&mut jobs, "ops", Disc::Any, ops(), false, &[], 6000, 200_000, 0.02);
-    add::<SMVReg>(&mut jobs, "ops+merges", Disc::Any, mixed(), false, &[], 4000, 100_000, 0.02);
+    add::<SMVReg>(&mut jobs, "ops", Disc::Any, ops(), false, &[], 12000, 200_000, 0.02);
+    add::<SMVReg>(&mut jobs, "ops+merges", Disc::Any, mixed(), false, &[], 8000, 100_000, 0.02);
     // Map
-    add::<MapOrswot>(&mut jobs, "A: edits at causally closed replicas, ops", Disc::Fifo, ops(), true, &[Class::T3], 6000, 200_000, 0.02);
-    add::<MapOrswot>(&mut jobs, "B: edits anywhere, ops+merges", Disc::Fifo, mixed(), false, &[Class::T1, Class::T3], 6000, 200_000, 0.02);
-    add::<MapMVReg>(&mut jobs, "A: edits at causally closed replicas, ops", Disc::Fifo, ops(), true, &[Class::T2, Class::T2b, Class::T3], 6000, 200_000, 0.02);
-    add::<MapMVReg>(&mut jobs, "B: edits anywhere, ops+merges", Disc::Fifo, mixed(), false, &[Class::T1, Class::T2, Class::T2b, Class::T3, Class::T5, Class::T6], 6000, 200_000, 0.02);
+    add::<MapOrswot>(&mut jobs, "A: edits at causally closed replicas, ops", Disc::Fifo, ops(), true, &[Class::T3], 12000, 200_000, 0.02);
+    add::<MapOrswot>(&mut jobs, "B: edits anywhere, ops+merges", Disc::Fifo, mixed(), false, &[Class::T1, Class::T3], 12000, 200_000, 0.02);
+    add::<MapMVReg>(&mut jobs, "A: edits at causally closed replicas, ops", Disc::Fifo, ops(), true, &[Class::T2, Class::T2b, Class::T3], 12000, 200_000, 0.02);
+    add::<MapMVReg>(&mut jobs, "B: edits anywhere, ops+merges", Disc::Fifo, mixed(), false, &[Class::T1, Class::T2, Class::T2b, Class::T3, Class::T5, Class::T6], 12000, 200_000, 0.02);
     // order-free types: any order at all
-    add::<SGCounter>(&mut jobs, "ops+merges", Disc::Any, mixed(), false, &[], 2000, 40_000, 0.02);
-    add::<SPNCounter>(&mut jobs, "ops+merges", Disc::Any, mixed(), false, &[], 2000, 40_000, 0.02);
-    add::<SGSet>(&mut jobs, "ops+merges", Disc::Any, mixed(), false, &[], 2000, 40_000, 0.02);
-    add::<SGList>(&mut jobs, "ops+merges", Disc::Any, mixed(), false, &[], 2000, 40_000, 0.02);
-    add::<SLww>(&mut jobs, "ops+merges", Disc::Any, mixed(), false, &[], 2000, 40_000, 0.02);
-    add::<SMax>(&mut jobs, "ops+merges", Disc::Any, mixed(), false, &[], 2000, 40_000, 0.02);
-    add::<SMin>(&mut jobs, "ops+merges", Disc::Any, mixed(), false, &[], 2000, 40_000, 0.02);
-    add::<SMerkle>(&mut jobs, "ops+merges", Disc::Any, mixed(), false, &[], 3000, 60_000, 0.02);
-    add::<SVClock>(&mut jobs, "ops+merges", Disc::Any, mixed(), false, &[], 2000, 40_000, 0.02);
+    add::<SGCounter>(&mut jobs, "ops+merges", Disc::Any, mixed(), false, &[], 4000, 40_000, 0.02);
+    add::<SPNCounter>(&mut jobs, "ops+merges", Disc::Any, mixed(), false, &[], 4000, 40_000, 0.02);
+    add::<SGSet>(&mut jobs, "ops+merges", Disc::Any, mixed(), false, &[], 4000, 40_000, 0.02);
+    add::<SGList>(&mut jobs, "ops+merges", Disc::Any, mixed(), false, &[], 4000, 40_000, 0.02);
+    add::<SLww>(&mut jobs, "ops+merges", Disc::Any, mixed(), false, &[], 4000, 40_000, 0.02);
+    add::<SMax>(&mut jobs, "ops+merges", Disc::Any, mixed(), false, &[], 4000, 40_000, 0.02);
+    add::<SMin>(&mut jobs, "ops+merges", Disc::Any, mixed(), false, &[], 4000, 40_000, 0.02);
+    add::<SMerkle>(&mut jobs, "ops+merges", Disc::Any, mixed(), false, &[], 6000, 60_000, 0.02);
+    add::<SVClock>(&mut jobs, "ops+merges", Disc::Any, mixed(), false, &[], 4000, 40_000, 0.02);
     Property {
         id: "C08",
         rule: "Plans under per-actor (FIFO) delivery for Orswot and Map, and NO ordering for MVReg and the order-free types, generator biased to deliver the newest eligible op first so removes/overwrites overtake what they observed; sub-domain A edits only at causally closed replicas, B anywhere; with and without merges of replicas holding pending removes. Oracles: (1) whenever a replica's knowledge is causally closed (and for all replicas after a final settle phase that delivers everything in a generated per-actor order) its reads+contexts equal those of a fresh replica fed the same ops in causal order; (2) intermediate reads equal the specification model (a pending remove hides exactly what it covers). Non-trivial (types with removes) = some replica held a pending remove (a known remove whose context is not covered by the dots it knows) for >=1 step and the missing updates later arrived by op or by merge; (order-free types) = non-causal knowledge at some step with concurrent ops on one element; distinct = distinct Plan hash.".into(),
